@@ -839,3 +839,19 @@ func hasShadowSummarize(q *qnode) bool {
 	}
 	return hasShadowSummarize(q.src) || hasShadowSummarize(q.src2)
 }
+
+// wholeRowInside: the tree has a whole-record summarize (min/max of a key
+// directly on a table, the result also carries the record) that is not the
+// root of the request.
+func wholeRowInside(q *qnode, root bool) bool {
+	if q == nil {
+		return false
+	}
+	if q.op == "view" {
+		return wholeRowInside(q.viewOf, root)
+	}
+	if q.op == "summarize" && q.whole && !root {
+		return true
+	}
+	return wholeRowInside(q.src, false) || wholeRowInside(q.src2, false)
+}
